@@ -395,3 +395,15 @@ Proof.
   apply Forall2_flip in F2. cbn [i rinput_of rp_assets rp_sched]. eapply Forall2_imp; [|exact F2].
   intros ra ap (A1 & A2 & A3 & _). auto.
 Qed.
+
+(** * 5. rejection for any rows the parser accepts: the lots run out *)
+Theorem e2e_lots_exhausted_any_rows c o secs ts workbook v envp s assets ps sched a p t evs :
+  front_accepts c o secs ts workbook s assets ps -> e2e_sched c o s = Some sched -> In (a, p) ps ->
+  txs_of_parsed p = Ok t -> taxable_events t = Ok evs -> wf (t_ins t) sched (map event_of evs) -> lots_exhausted t evs ->
+  rp2_model c o secs ts workbook v envp = (1, []).
+Proof.
+  intros (V & O & P) S Hin T HE WF Hex.
+  apply (e2e_asset_rejected c o secs ts workbook v envp s assets ps V O P sched (a, p) S Hin).
+  unfold asset_of. cbn [snd]. rewrite T. unfold fractions_of. rewrite HE.
+  rewrite (proj2 (m_fails_iff _ _ _ WF) Hex). exact I.
+Qed.
